@@ -301,3 +301,120 @@ Proof.
     apply Lprev. apply Pos.eqb_neq in Eye. apply in_app_or in Hy. apply in_or_app.
     destruct Hy as [Hy|[Hy|Hy]]; [left; exact Hy|congruence|right; exact Hy].
 Qed.
+
+(* ------------------------------------------------------------------ RemoveIterationEntry (links) *)
+
+Lemma unlink_linked : forall h l1 l2 e,
+  linked h (l1 ++ e :: l2) ->
+  let h' := unlink h e in
+  linked h' (l1 ++ l2) /\ same_data h h' /\ meta_eq h h' /\ get_prev h' e = None /\ get_next h' e = None.
+Proof.
+  intros h l1 l2 e L h'.
+  destruct L as [Lhd Ltl Lnd Llive Lnext Lprev].
+  destruct (nodup_split_notin _ _ _ Lnd) as [Hn1 Hn2].
+  assert (Hin : In e (l1 ++ e :: l2)) by (apply in_or_app; right; left; reflexivity).
+  assert (Le : live h e) by (apply Llive; exact Hin).
+  assert (Hp : get_prev h e = last_of l1) by (rewrite Lprev by exact Hin; apply prev_in_mid; exact Hn1).
+  assert (Hx : get_next h e = head_opt l2) by (rewrite Lnext by exact Hin; apply next_in_mid; exact Hn1).
+  set (h1 := if opt_pos_eqb (hd h) (Some e) then with_hd h (head_opt l2) else h).
+  set (h2 := if opt_pos_eqb (tl h1) (Some e) then with_tl h1 (last_of l1) else h1).
+  set (h3 := match last_of l1 with Some pp => set_next h2 pp (head_opt l2) | None => h2 end).
+  set (h4 := match head_opt l2 with Some nn => set_prev h3 nn (last_of l1) | None => h3 end).
+  assert (Hh' : h' = set_next (set_prev h4 e None) e None).
+  { unfold h', unlink. rewrite Hp, Hx. reflexivity. }
+  assert (S1 : same_data h h1 /\ meta_eq h h1 /\ (forall y, get_next h1 y = get_next h y) /\ (forall y, get_prev h1 y = get_prev h y) /\ tl h1 = tl h).
+  { unfold h1. destruct (opt_pos_eqb (hd h) (Some e)); repeat split; intros; tauto. }
+  destruct S1 as (S1 & M1 & N1 & P1 & T1).
+  assert (S2 : same_data h h2 /\ meta_eq h h2 /\ (forall y, get_next h2 y = get_next h y) /\ (forall y, get_prev h2 y = get_prev h y) /\ hd h2 = hd h1).
+  { unfold h2. destruct (opt_pos_eqb (tl h1) (Some e)).
+    - repeat split; try (intros; tauto); try apply S1; try apply M1; intros; [apply N1|apply P1].
+    - repeat split; try apply S1; try apply M1; assumption. }
+  destruct S2 as (S2 & M2 & N2 & P2 & H2).
+  assert (Hlast_ne : forall p, last_of l1 = Some p -> p <> e) by (intros p EL ->; apply Hn1; apply last_of_in; exact EL).
+  assert (Hhead_ne : forall n, head_opt l2 = Some n -> n <> e) by (intros n EH ->; apply Hn2; apply head_opt_in; exact EH).
+  assert (Hlast_live : forall p, last_of l1 = Some p -> live h p).
+  { intros p EL. apply Llive. apply in_or_app. left. apply last_of_in; exact EL. }
+  assert (Hhead_live : forall n, head_opt l2 = Some n -> live h n).
+  { intros n EH. apply Llive. apply in_or_app. right. right. apply head_opt_in; exact EH. }
+  assert (S3 : same_data h h3 /\ meta_eq h h3).
+  { unfold h3. destruct (last_of l1).
+    - split; [eapply same_data_trans; [exact S2|apply same_data_set_next]|eapply meta_eq_trans; [exact M2|apply meta_set_next]].
+    - split; assumption. }
+  destruct S3 as [S3 M3].
+  assert (S4 : same_data h h4 /\ meta_eq h h4).
+  { unfold h4. destruct (head_opt l2).
+    - split; [eapply same_data_trans; [exact S3|apply same_data_set_prev]|eapply meta_eq_trans; [exact M3|apply meta_set_prev]].
+    - split; assumption. }
+  destruct S4 as [S4 M4].
+  assert (S' : same_data h h' /\ meta_eq h h').
+  { rewrite Hh'. split.
+    - eapply same_data_trans; [exact S4|]. eapply same_data_trans; [apply same_data_set_prev|apply same_data_set_next].
+    - eapply meta_eq_trans; [exact M4|]. eapply meta_eq_trans; [apply meta_set_prev|apply meta_set_next]. }
+  destruct S' as [S' M'].
+  assert (Le4 : live h4 e) by (apply S4; exact Le).
+  assert (Le5 : live (set_prev h4 e None) e) by (apply live_set_prev; exact Le4).
+  assert (N3 : forall y, get_next h3 y = if opt_pos_eqb (Some y) (last_of l1) then head_opt l2 else get_next h y).
+  { intros y. unfold h3. destruct (last_of l1) as [p|] eqn:EL.
+    - rewrite get_next_set_next by (apply S2; apply Hlast_live; reflexivity). cbn.
+      destruct (Pos.eqb y p); [reflexivity|apply N2].
+    - cbn. apply N2. }
+  assert (P3 : forall y, get_prev h3 y = get_prev h y).
+  { intros y. unfold h3. destruct (last_of l1); [rewrite get_prev_set_next|]; apply P2. }
+  assert (N4 : forall y, get_next h4 y = get_next h3 y).
+  { intros y. unfold h4. destruct (head_opt l2); [apply get_next_set_prev|reflexivity]. }
+  assert (P4 : forall y, get_prev h4 y = if opt_pos_eqb (Some y) (head_opt l2) then last_of l1 else get_prev h y).
+  { intros y. unfold h4. destruct (head_opt l2) as [n|] eqn:EH.
+    - rewrite get_prev_set_prev by (apply S3; apply Hhead_live; reflexivity). cbn.
+      destruct (Pos.eqb y n); [reflexivity|apply P3].
+    - cbn. apply P3. }
+  assert (N' : forall y, get_next h' y = if Pos.eqb y e then None else get_next h4 y).
+  { intros y. rewrite Hh'. rewrite get_next_set_next by exact Le5. destruct (Pos.eqb y e); [reflexivity|apply get_next_set_prev]. }
+  assert (P' : forall y, get_prev h' y = if Pos.eqb y e then None else get_prev h4 y).
+  { intros y. rewrite Hh'. rewrite get_prev_set_next. apply get_prev_set_prev. exact Le4. }
+  split; [|split; [exact S'|split; [exact M'|split]]].
+  - assert (Hnd' : NoDup (l1 ++ l2)) by (eapply nodup_remove_mid; eassumption).
+    constructor.
+    + (* head *)
+      assert (E : hd h' = hd h2).
+      { rewrite Hh'. rewrite hd_set_next, hd_set_prev. unfold h4. destruct (head_opt l2); [rewrite hd_set_prev|];
+          unfold h3; destruct (last_of l1); try rewrite hd_set_next; reflexivity. }
+      rewrite E, H2. unfold h1. rewrite Lhd. destruct l1 as [|x l1'].
+      * cbn [app head_opt]. rewrite opt_pos_eqb_refl. reflexivity.
+      * cbn [app head_opt].
+        assert (opt_pos_eqb (Some x) (Some e) = false) as ->.
+        { apply opt_pos_eqb_false. intro H; inversion H; subst. apply Hn1. left; reflexivity. }
+        exact Lhd.
+    + (* tail *)
+      assert (E : tl h' = tl h2).
+      { rewrite Hh'. rewrite tl_set_next, tl_set_prev. unfold h4. destruct (head_opt l2); [rewrite tl_set_prev|];
+          unfold h3; destruct (last_of l1); try rewrite tl_set_next; reflexivity. }
+      rewrite E. unfold h2. rewrite T1, Ltl, last_of_app_cons. destruct l2 as [|x l2'].
+      * rewrite last_of_single, opt_pos_eqb_refl. rewrite app_nil_r. reflexivity.
+      * rewrite last_of_cons_cons.
+        assert (opt_pos_eqb (last_of (x :: l2')) (Some e) = false) as ->.
+        { apply opt_pos_eqb_false. intro H. apply last_of_in in H. apply Hn2. exact H. }
+        rewrite T1, Ltl, last_of_app_cons, last_of_cons_cons. rewrite last_of_app_cons. reflexivity.
+    + exact Hnd'.
+    + intros y Hy. apply S'. apply Llive. apply in_app_or in Hy. apply in_or_app. destruct Hy; [left|right; right]; assumption.
+    + intros y Hy.
+      assert (Hye : y <> e) by (intro; subst; apply in_app_or in Hy; tauto).
+      assert (Hy' : In y (l1 ++ e :: l2)) by (apply in_app_or in Hy; apply in_or_app; destruct Hy; [left|right; right]; assumption).
+      rewrite N'. apply Pos.eqb_neq in Hye as ->. rewrite N4, N3.
+      destruct (opt_pos_eqb (Some y) (last_of l1)) eqn:EL.
+      * apply opt_pos_eqb_true in EL. symmetry in EL. destruct (last_of_split _ _ _ EL) as [l0 ->].
+        rewrite <- app_assoc. cbn [app]. symmetry. apply next_in_mid.
+        intro Hin0. rewrite <- app_assoc in Hnd'. cbn [app] in Hnd'. apply nodup_split_notin in Hnd'. tauto.
+      * rewrite Lnext by exact Hy'. rewrite next_in_insert by exact Lnd.
+        assert (Pos.eqb y e = false) as -> by (apply Pos.eqb_neq; intro; subst; apply in_app_or in Hy; tauto).
+        rewrite EL. reflexivity.
+    + intros y Hy.
+      assert (Hye : y <> e) by (intro; subst; apply in_app_or in Hy; tauto).
+      assert (Hy' : In y (l1 ++ e :: l2)) by (apply in_app_or in Hy; apply in_or_app; destruct Hy; [left|right; right]; assumption).
+      rewrite P'. apply Pos.eqb_neq in Hye as E1. rewrite E1, P4.
+      destruct (opt_pos_eqb (Some y) (head_opt l2)) eqn:EH.
+      * apply opt_pos_eqb_true in EH. destruct l2 as [|x l2']; [discriminate|]. inversion EH; subst x.
+        symmetry. apply prev_in_mid. intro Hin1. apply nodup_split_notin in Hnd'. tauto.
+      * rewrite Lprev by exact Hy'. rewrite prev_in_insert by exact Lnd. rewrite E1, EH. reflexivity.
+  - rewrite P', Pos.eqb_refl. reflexivity.
+  - rewrite N', Pos.eqb_refl. reflexivity.
+Qed.
